@@ -944,7 +944,7 @@ fn main() {
 	let mut check = Check::from_args(
 		"C18",
 		"exploration",
-		"phase trees: proptest syntax trees (1-4 nodes per pipeline, 0-4 properties with keys from a small pool so that they repeat, values bare / arbitrary quoted strings / lists of 0-5, 0-3 nested pipelines per node, nesting depth <= 3, thorough 5) rendered with a generated tape of quoting and whitespace choices; non-trivial = nesting >= 1 and a (necessarily quoted) value containing one of | [ ] , = \"; phases broken and factory: every asserted mutation / fault class counts as non-trivial; phase order: built pipelines of 2-4 non-commuting vectortiles_update_properties stages (optionally with commuting filters in between, optionally nested in a source list) must apply the stages in the written order (the last stage's value wins), non-trivial = first and last stage differ; distinct = distinct serialised (tree, tape[, mutation]) cases",
+		"phase trees: proptest syntax trees (1-4 nodes per pipeline, 0-4 properties with keys from a small pool so that they repeat, values bare / arbitrary quoted strings / lists of 0-5, 0-3 nested pipelines per node, nesting depth <= 3, thorough 5) rendered with a generated tape of quoting and whitespace choices; non-trivial = nesting >= 1 and a (necessarily quoted) value containing one of | [ ] , = \"; phases broken and factory: every asserted mutation / fault class counts as non-trivial (factory faults: unknown operation names anywhere, also inside a source list behind an operation that takes no sources; read/transform operations swapped; missing required parameters; numbers that are words / above 255 / negative; lists of 0 or >= 2 entries where one value is expected; boxes with 1-6 entries or a word); phase order: built pipelines of 2-4 non-commuting vectortiles_update_properties stages (optionally with commuting filters in between, optionally nested in a source list) must apply the stages in the written order (the last stage's value wins), non-trivial = first and last stage differ; distinct = distinct serialised (tree, tape[, mutation]) cases",
 	);
 	check.assume("syntax = versatiles_pipeline/src/help.md + the property statement; the alphabet of bare values / identifiers, the escapes \\\\ \\\" \\n \\t and the whitespace set (space, tab, CR, LF) are those of vpl/parser.rs, the documentation is silent about them");
 	check.assume("whitespace is generated before/after the text, around |, between name and properties and between properties (at least one character there), around =, inside list values around [ , ], before the source list and inside it around [ , ]; not generated (documentation silent, parser rejects): properties without separating whitespace, properties after the source list");
